@@ -11,7 +11,7 @@ import sys
 
 import numpy as np
 
-from common import Check, MachineryError, main_wrapper, run_tlc, run_workers, validate_records, worker_main
+from common import handle_crash, Check, MachineryError, main_wrapper, run_tlc, run_workers, validate_records, worker_main
 from ciderpress.lib.fft_plan import FFTWrapper, libfft
 
 
@@ -320,7 +320,8 @@ def main():
                          replay={"cfg": cfgs[0] if cfgs else None})
             continue
         if "crash" in res:
-            raise MachineryError("worker crashed: %s\n%s" % (res["crash"], res.get("tb")))
+            handle_crash(ck, res)
+            continue
         recs += res["recs"]
     recs.sort(key=lambda r_: r_["id"])
     if not recs:
